@@ -1676,7 +1676,7 @@ def probe_rendering(ctx):
                 ctx.violation("rendering the same validation result twice gives different text", rp)
                 return n
             if repr(own) != before_path:
-                rp.update(observed=repr(own), expected=before_path)
+                rp.update(observed=common.srepr(own), expected=before_path)
                 ctx.violation("validate / format_result changed the path object passed in by the caller", rp)
                 return n
             if [repr(e.path) for e in res.get_errors()] != paths:
